@@ -149,9 +149,18 @@ func (r *Report) Finish(verifDir string) int {
 	}
 	sort.Strings(rules)
 	for _, rule := range rules {
-		if r.Counts[rule] < r.Floors[rule] {
+		// The floor is the instance count confirmed by reading the unchanged tree. It guards against a rule
+		// that silently stops matching (a vacuous pass); it must not fire when maintainers merge duplicated
+		// code into one helper (four call sites become one). Counts of eight and more therefore tolerate a
+		// quarter fewer instances; small counts are exact. A construct that disappears is still reported by
+		// the rule that looks for it.
+		need := r.Floors[rule]
+		if need >= 8 {
+			need = (need*3 + 3) / 4
+		}
+		if r.Counts[rule] < need {
 			r.Obs = append(r.Obs, &Obligation{Rule: rule, Key: Key(rule, "-", "-", "instance-floor"), Pos: "-", Status: Violated,
-				Reason: fmt.Sprintf("rule matched %d instances, floor confirmed by reading is %d: an anchored construct disappeared or is no longer recognised", r.Counts[rule], r.Floors[rule])})
+				Reason: fmt.Sprintf("rule matched %d instances, floor confirmed by reading is %d (at least %d required): an anchored construct disappeared or is no longer recognised", r.Counts[rule], r.Floors[rule], need)})
 		}
 	}
 	findings, ferr := LoadFindings(filepath.Join(verifDir, "known_findings.json"))
